@@ -1,5 +1,7 @@
 import PfVerif.Audit.Tool
 import PfVerif.Props.C11
 import PfVerif.Lemmas.C11Engine
+import PfVerif.Lemmas.C11Buffers
 #audit_module PfVerif.Props.C11
 #audit_module_ns PfVerif.Lemmas.C11Engine PfVerif.C11Engine
+#audit_module_ns PfVerif.Lemmas.C11Buffers PfVerif.C11Buffers
